@@ -4,6 +4,7 @@ import OmplModel.Model.Owen
 import OmplModel.Model.Vana
 import OmplModel.Model.VanaOwen
 import OmplModel.Model.Motion
+import OmplModel.Model.CarAlias
 import OmplModel.Driver.Common
 /-! Line-protocol driver for the Dubins model.
 Header `dubins rho=<bits> sym=<0|1> lo=<bits> hi=<bits>` (the bounds are set on the real space only;
@@ -25,6 +26,7 @@ Header `rs rho=<bits> lo=<bits> hi=<bits>` (Reeds-Shepp model, `Model/ReedsShepp
 -/
 namespace OmplModel.Driver.DubinsDrv
 open OmplModel.Dubins OmplModel.Driver
+open OmplModel.CarAlias (Alias callMem)
 
 structure St where
   rho : Float
@@ -39,6 +41,12 @@ structure St where
   vo : Bool := false
   absPhi : Bool := false
   alias : Char := 'n'
+
+/-- `op@f` / `op@t`: the aliasing mode of the current op (`none`: a separate output object, answered by the pure functions; otherwise
+the store-semantics model of `Model/CarAlias.lean` is run with the output pointer designating the `from` / `to` object) -/
+def St.al (st : St) : Option Alias := if st.alias == 'f' then some .frm else if st.alias == 't' then some .to else none
+
+def zeroPose : Pose Float := ⟨0, 0, 0⟩
 
 def kv? (key : String) (tok : String) : Option String :=
   if tok.startsWith (key ++ "=") then some (tok.drop (key.length + 1)).toString else none
@@ -147,6 +155,12 @@ def stepRS (st : St) (ts : List String) : St × String :=
   | ["rsinterp", a, b, c, d, e, f, t] =>
     match pose? [a, b, c], pose? [d, e, f], parseFloatBits? t with
     | some s1, some s2, some t =>
+      match st.al with
+      | some al =>
+        match OmplModel.CarAlias.rsCachedOverload st.rho t none al.ptr (callMem s1 s2 zeroPose) with
+        | some (m, _) => (st, showPose (m.get al.ptr))
+        | none => (st, "none")
+      | none =>
       match OmplModel.RS.rsInterpolate st.rho s1 s2 t with
       | some P => (st, showPose P)
       | none => (st, "none")
@@ -172,7 +186,9 @@ def stepRS (st : St) (ts : List String) : St × String :=
     | some s1, some s2, some (xs, []) =>
       match xs.mapM parseFloatBits? with
       | some ts =>
-        (st, " | ".intercalate ((OmplModel.RS.rsInterpCached st.rho s1 s2 none ts).map
+        (st, " | ".intercalate ((match st.al with
+            | some al => OmplModel.CarAlias.rsCachedSeq st.rho s1 s2 al none zeroPose ts
+            | none => OmplModel.RS.rsInterpCached st.rho s1 s2 none ts).map
           (fun o => match o with | some P => showPose P | none => "nopath")))
       | none => (st, "bad-op")
     | _, _, _ => (st, "bad-op")
@@ -180,14 +196,20 @@ def stepRS (st : St) (ts : List String) : St × String :=
     match pose? [a, b, c], pose? [d, e, f], parseFloatBits? t with
     | some s1, some s2, some t =>
       match OmplModel.RS.reedsSheppStates st.rho s1 s2 with
-      | some p => (st, showPose (OmplModel.RS.rsInterpPath st.rho s1 p t))
+      | some p =>
+        match st.al with
+        | some al => (st, showPose ((OmplModel.CarAlias.rsPathOverload st.rho p t (.ptr .frm) al.ptr (callMem s1 s2 zeroPose)).get al.ptr))
+        | none => (st, showPose (OmplModel.RS.rsInterpPath st.rho s1 p t))
       | none => (st, "nopath")
     | _, _, _ => (st, "bad-op")
   | ["rsend", a, b, c, d, e, f] =>
     match pose? [a, b, c], pose? [d, e, f] with
     | some s1, some s2 =>
       match OmplModel.RS.reedsSheppStates st.rho s1 s2 with
-      | some p => (st, showPose (OmplModel.RS.rsInterpPath st.rho s1 p 1))
+      | some p =>
+        match st.al with
+        | some al => (st, showPose ((OmplModel.CarAlias.rsPathOverload st.rho p 1 (.ptr .frm) al.ptr (callMem s1 s2 zeroPose)).get al.ptr))
+        | none => (st, showPose (OmplModel.RS.rsInterpPath st.rho s1 p 1))
       | none => (st, "nopath")
     | _, _ => (st, "bad-op")
   | ["bothfix", a, b, c, d, e, f] =>
@@ -240,6 +262,12 @@ def stepD (st : St) (ts : List String) : St × String :=
   | ["interp", a, b, c, d, e, f, t] =>
     match pose? [a, b, c], pose? [d, e, f], parseFloatBits? t with
     | some s1, some s2, some t =>
+      match st.al with
+      | some al =>
+        match OmplModel.CarAlias.dubinsCachedOverload st.rho st.sym t none al.ptr (callMem s1 s2 zeroPose) with
+        | some (m, _) => (st, showPose (m.get al.ptr))
+        | none => (st, "none")
+      | none =>
       match interpolate st.rho st.sym s1 s2 t with
       | some P => (st, showPose P)
       | none => (st, "none")
@@ -263,14 +291,19 @@ def stepD (st : St) (ts : List String) : St × String :=
     | some s1, some s2, some (xs, []) =>
       match xs.mapM parseFloatBits? with
       | some ts =>
-        (st, " | ".intercalate ((interpCached st.rho st.sym s1 s2 none ts).map (fun o => match o with | some P => showPose P | none => "nopath")))
+        (st, " | ".intercalate ((match st.al with
+            | some al => OmplModel.CarAlias.dubinsCachedSeq st.rho st.sym s1 s2 al none zeroPose ts
+            | none => interpCached st.rho st.sym s1 s2 none ts).map (fun o => match o with | some P => showPose P | none => "nopath")))
       | none => (st, "bad-op")
     | _, _, _ => (st, "bad-op")
   | ["ipath", a, b, c, d, e, f, t] =>
     match pose? [a, b, c], pose? [d, e, f], parseFloatBits? t with
     | some s1, some s2, some t =>
       match choosePath st.rho st.sym s1 s2 with
-      | .path P => (st, showPose (interpPath st.rho s1 P t))
+      | .path P =>
+        match st.al with
+        | some al => (st, showPose ((OmplModel.CarAlias.dubinsPathOverload OmplModel.CarAlias.poseView st.rho P t (.ptr .frm) al.ptr (callMem s1 s2 zeroPose)).get al.ptr))
+        | none => (st, showPose (interpPath st.rho s1 P t))
       | _ => (st, "nopath")
     | _, _, _ => (st, "bad-op")
   | ["endp", a, b, c, d, e, f] =>
@@ -278,7 +311,9 @@ def stepD (st : St) (ts : List String) : St × String :=
     | some s1, some s2 =>
       match choosePath st.rho st.sym s1 s2 with
       | .path P =>
-        (st, "rev=" ++ (if P.rev then "1 " else "0 ") ++ showPath P ++ " | " ++ showPose (interpPath st.rho s1 P 1))
+        (st, "rev=" ++ (if P.rev then "1 " else "0 ") ++ showPath P ++ " | " ++ showPose (match st.al with
+          | some al => (OmplModel.CarAlias.dubinsPathOverload OmplModel.CarAlias.poseView st.rho P 1 (.ptr .frm) al.ptr (callMem s1 s2 zeroPose)).get al.ptr
+          | none => interpPath st.rho s1 P 1))
       | .nopath => (st, "nopath")
       | .unclassified => (st, "unclassified")
     | _, _ => (st, "bad-op")
@@ -443,7 +478,10 @@ def stepOwen (st : St) (ts : List String) : St × String :=
     match st4? [a, b, c, d], st4? [e, f, g, h], parseFloatBits? t, parseFloatBits? root with
     | some s1, some s2, some t, some root =>
       let q := match OmplModel.Owen.getPathWith st.rho st.tanp root s1 s2 with
-        | some p => OmplModel.Owen.interpWith s1 s2 t p
+        | some p =>
+          match st.al with
+          | some al => (OmplModel.CarAlias.owenInterpOverload t p al.ptr (callMem s1 s2 ⟨0, 0, 0, 0⟩)).get al.ptr
+          | none => OmplModel.Owen.interpWith s1 s2 t p
         | none => s1
       (st, joinSp [floatBits q.x, floatBits q.y, floatBits q.z, floatBits q.yaw])
     | _, _, _, _ => (st, "bad-op")
@@ -492,7 +530,12 @@ def stepVana (st : St) (ts : List String) : St × String :=
   | ["vinterp", a, b, c, d, e, f, g, h, i, j, t] =>
     match st5? [a, b, c, d, e], st5? [f, g, h, i, j], parseFloatBits? t with
     | some s1, some s2, some t =>
-      let q := OmplModel.Vana.interpolateV st.lastArc st.rho (-st.pitch) st.pitch vtol s1 s2 t
+      let q := match st.al with
+        | some al =>
+          match OmplModel.Vana.getPath st.lastArc st.rho (-st.pitch) st.pitch vtol s1 s2 with
+          | some p => (OmplModel.CarAlias.vanaInterpOverload t p al.ptr (callMem s1 s2 ⟨0, 0, 0, 0, 0⟩)).get al.ptr
+          | none => s1
+        | none => OmplModel.Vana.interpolateV st.lastArc st.rho (-st.pitch) st.pitch vtol s1 s2 t
       (st, joinSp [floatBits q.x, floatBits q.y, floatBits q.z, floatBits q.pitch, floatBits q.yaw])
     | _, _, _ => (st, "bad-op")
   | _ => (st, "bad-op")
@@ -545,7 +588,9 @@ def stepVO (st : St) (ts : List String) : St × String :=
   | "vointerpr" :: a :: b :: c :: d :: e :: f :: g :: h :: i :: j :: t :: rest =>
     match st5? [a, b, c, d, e], st5? [f, g, h, i, j], parseFloatBits? t, voPath? rest with
     | some s1, some s2, some t, some p =>
-      let q := OmplModel.VanaOwen.voInterp s1 s2 t p
+      let q := match st.al with
+        | some al => (OmplModel.CarAlias.voInterpOverload t p al.ptr (callMem s1 s2 ⟨0, 0, 0, 0, 0⟩)).get al.ptr
+        | none => OmplModel.VanaOwen.voInterp s1 s2 t p
       (st, joinSp [floatBits q.x, floatBits q.y, floatBits q.z, floatBits q.pitch, floatBits q.yaw])
     | _, _, _, _ => (st, "bad-op")
   | ["volen", _cat, rh, rv, dz, phi, k, xy, w1, t1, p1, q1, szt, w2, t2, p2, q2, sz0, len] =>
